@@ -91,6 +91,9 @@ func oneRun(name string, rng *rand.Rand) runResult {
 	kinds := map[string]int{}
 	for i := range tasks {
 		t := &task{value: int64(i+1)*1000 + int64(rng.Intn(999)) + 1}
+		if rng.Intn(4) == 0 {
+			t.value = 0 // a task may legitimately succeed with the zero value
+		}
 		switch x := rng.Intn(10); {
 		case x < 4:
 			t.kind = "value"
@@ -260,7 +263,7 @@ func bucketN(n int) string {
 
 func main() {
 	r := ev.Start("C46", "exploration")
-	r.SetRule("one call of promise.All per case: 0..16 seeded tasks of kinds value / error / value+error / context-aware (return on cancellation or after a delay), delays 0..600 us plus 0..3 yields, context cancelled never / before the call / after a seeded delay / when the first task returns; distinct by (task-count bucket, cancellation mode, has failing task, has context-aware task)")
+	r.SetRule("one call of promise.All per case: 0..16 seeded tasks of kinds value (a quarter of them the zero value) / error / value+error / context-aware (return on cancellation or after a delay), delays 0..600 us plus 0..3 yields, context cancelled never / before the call / after a seeded delay / when the first task returns; distinct by (task-count bucket, cancellation mode, has failing task, has context-aware task)")
 	if !racelog.Enabled() {
 		r.Assume("this run was built WITHOUT -race: only the functional oracle was active")
 	}
